@@ -171,3 +171,16 @@ Qed.
 (* "#f00" (pinned by the test-suite) comes back as it is: not an ODF colour *)
 Theorem hexa_color_passthrough : hexa_color css3_colormap (HStr [35;102;48;48]%N) = Some (Some [35;102;48;48]%N) /\ color_lexical [35;102;48;48]%N = false.
 Proof. split; reflexivity. Qed.
+
+(* ---- Boolean.encode on any argument *)
+Theorem bool_encode_any_lemma i t : bool_encode_any i = Some t ->
+  bool_lexical t = true /\ exists b, bool_decode t = Some b /\ t = bool_encode b /\
+    match i with BBool b' => b' = b | BStr s => lower_str s = bool_encode b | BOther => False end.
+Proof.
+  destruct i as [b|s|]; cbn [bool_encode_any]; [ | |discriminate].
+  - intros [= <-]. split; [destruct b; reflexivity|]. exists b. destruct b; repeat split; reflexivity.
+  - destruct (str_eqb (lower_str s) s_true) eqn:E1.
+    + intros [= <-]. split; [reflexivity|]. exists true. repeat split; try reflexivity. now apply str_eqb_eq in E1.
+    + destruct (str_eqb (lower_str s) s_false) eqn:E2; [|discriminate].
+      intros [= <-]. split; [reflexivity|]. exists false. repeat split; try reflexivity. now apply str_eqb_eq in E2.
+Qed.
